@@ -49,7 +49,9 @@ func SetIdentity(storageDir string, cid, nid uint64) (err error) {
 		return err
 	}
 	defer func() {
-		err = unlockDir(storageDir)
+		if e := unlockDir(storageDir); err == nil {
+			err = e
+		}
 	}()
 	val, err := openValue(storageDir, ".id")
 	if err != nil {
